@@ -370,10 +370,11 @@ func (e *SpecEnv) eval(x ast.Expr) *Val {
 	case *ast.SliceExpr:
 		// a[:] of an addressable array: the slice over the whole array, as go/ssa's Slice of a *[N]T
 		if x.Low == nil && x.High == nil && x.Max == nil {
-			if pl := e.placeExprQuiet2(x.X); pl != nil && !pl.Elem && len(pl.Path) == 0 {
+			if pl := e.placeExprQuiet2(x.X); pl != nil {
 				if at, ok := types.Unalias(pl.typ()).Underlying().(*types.Array); ok {
 					n := fmt.Sprint(at.Len())
-					return &Val{T: types.NewSlice(at.Elem()), S: fmt.Sprintf("(mk_Slice %s 0 %s %s)", pl.Base, n, n)}
+					ptr := e.fr.termOf(&Val{T: types.NewPointer(pl.typ()), Place: pl})
+					return &Val{T: types.NewSlice(at.Elem()), S: fmt.Sprintf("(mk_Slice %s 0 %s %s)", ptr, n, n)}
 				}
 			}
 		}
@@ -398,7 +399,7 @@ func (e *SpecEnv) placeExprQuiet2(x ast.Expr) *Place {
 	if _, ok := x.(*ast.Ident); ok {
 		return e.placeExpr(x)
 	}
-	return nil
+	return e.placeExprQuiet(x)
 }
 
 func derefStruct(t types.Type) (*types.Struct, types.Type, bool) {
